@@ -59,7 +59,7 @@ def run_wrapper():
             kwds = dict(scale=object())
             sp = object()
             for klass in ('Jacobian', 'Gradient'):
-                for xkind in ('scalar', 'vec', 'mat'):
+                for xkind in ('scalar', 'vec', 'mat', 'mat-transposed-view', 'mat-F-ordered'):
                     CTX.reset()
                     del calls[:]
                     tag = '%s,%s,step=%s,%s,%s:' % (klass, method, stepv, bnd, xkind)
@@ -73,8 +73,19 @@ def run_wrapper():
                     obj = getattr(ns, klass)(fun, **kw)
                     if bounds is None:
                         bounds = obj.bounds
-                    x = {'scalar': real('x'), 'vec': SymArr([real('x0'), real('x1'), real('x2')]),
-                         'mat': SymArr([[real('x00'), real('x01')], [real('x10'), real('x11')]])}[xkind]
+                    if xkind == 'mat-transposed-view':
+                        base = np.empty((3, 2), dtype=object)
+                        for idx in np.ndindex(3, 2):
+                            base[idx] = real('x%d%d' % idx[::-1])
+                        x = base.T.view(SymArr)                   # shape (2, 3), not C-contiguous
+                    elif xkind == 'mat-F-ordered':
+                        base = np.empty((2, 3), dtype=object, order='F')
+                        for idx in np.ndindex(2, 3):
+                            base[idx] = real('x%d%d' % idx)
+                        x = base.view(SymArr)
+                    else:
+                        x = {'scalar': real('x'), 'vec': SymArr([real('x0'), real('x1'), real('x2')]),
+                             'mat': SymArr([[real('x00'), real('x01')], [real('x10'), real('x11')]])}[xkind]
                     n = asobj(x).size
                     ret = SymArr([[real('J%d_%d' % (i, j)) for j in range(n)] for i in range(1 if klass == 'Gradient' else 2)])
                     stub.ret = ret
@@ -84,7 +95,8 @@ def run_wrapper():
                         continue
                     f_, x0, a_, k_ = calls[0]
                     solve.fact(tag + 'fun-forwarded', f_ is fun)
-                    want_x = asobj(x).ravel() if klass == 'Gradient' else np.atleast_1d(asobj(x))
+                    # Gradient: the variables are the elements of x in index (row-major) order, whatever its memory layout
+                    want_x = np.array([asobj(x)[idx] for idx in np.ndindex(np.shape(x))], dtype=object) if klass == 'Gradient' else np.atleast_1d(asobj(x))
                     solve.fact(tag + 'x-forwarded-as-array', np.shape(x0) == want_x.shape and
                                all(lift(u).t.eq(lift(v).t) for u, v in zip(asobj(x0).ravel(), want_x.ravel())))
                     solve.fact(tag + 'no-extra-positional-arguments', a_ == ())
@@ -96,6 +108,16 @@ def run_wrapper():
                     solve.fact(tag + 'bounds-forwarded-unchanged', k_.get('bounds') is bounds)
                     solve.fact(tag + 'sparsity-forwarded-unchanged', k_.get('sparsity') is sp)
                     solve.fact(tag + 'only-known-options', set(k_) <= {'method', 'rel_step', 'args', 'kwargs', 'bounds', 'sparsity'})
+                    # history: later calls on the same object forward THEIR OWN extra arguments (none, then others)
+                    del calls[:]
+                    obj(x)
+                    ok2 = len(calls) == 1 and calls[0][3].get('args', ()) == () and calls[0][3].get('kwargs', {}) in ({}, None)
+                    solve.fact(tag + 'second-call-without-extra-arguments-forwards-none', ok2, note=str([(c_[3].get('args'), c_[3].get('kwargs')) for c_ in calls])[:200])
+                    del calls[:]
+                    args3, kwds3 = ('other',), dict(flag=True)
+                    obj(x, *args3, **kwds3)
+                    ok3 = len(calls) == 1 and calls[0][3].get('args') == args3 and calls[0][3].get('kwargs') == kwds3
+                    solve.fact(tag + 'third-call-forwards-its-own-arguments', ok3)
                     if klass == 'Jacobian':
                         solve.fact(tag + 'result-returned-unchanged', out is ret)
                     else:
